@@ -923,6 +923,90 @@ class CrashPrefix(Component):
         op, cf = parse_case(case)
         return ['total=' + ('declared' if 'total' in cf else 'open'), 'cuts=' + cf['cuts'], 'seek=' + cf['seek'].split(':')[0]]
 
+# ------------------------------------------------------------------------------------------------
+# C15 — constructor grid and declared-length histories
+# ------------------------------------------------------------------------------------------------
+class CtorGrid(Component):
+    name = 'ctor'
+    ops = ('ctor',)
+    profiles = ('release', 'checked')
+    ignore = ('stage', 'md5')
+    def cases(self, rng, tier, boost):
+        out = []
+        grid = {
+            'bps': [0, 1, 2, 4, 8, 16, 24, 31, 32, 33, 64],
+            'ch': [0, 1, 2, 8, 9, 255],
+            'rate': [0, 1, 44100, 1048575, 1048576, 4000000000],
+            'bs': [0, 15, 16, 17, 4096, 65535],
+            'lpc': ['none', '0', '1', '8', '31', '32', '33'],
+            'po': [0, 5, 15, 16],
+        }
+        base = {'bps': 16, 'ch': 2, 'rate': 44100, 'bs': 16, 'lpc': '8', 'po': 5}
+        fes = ['byte', 'sample', 'chan']
+        # one parameter at a time over its whole boundary list, then random crossings
+        for fe in fes:
+            for k, vals in grid.items():
+                for v in vals:
+                    f = dict(base); f[k] = v; f['fe'] = fe
+                    for fill, tot in ((40, None), (40, 'exact'), (40, 'under'), (40, 'over'), (0, None)):
+                        g = dict(f); g['fill'] = fill
+                        self.add_total(g, fill, tot)
+                        out.append('ctor ' + gen.fields_str(g))
+        n = self.budget(tier, boost, 400, 30000)
+        for i in range(n):
+            f = {k: rng.choice(v) for k, v in grid.items()}
+            if rng.random() < 0.6:
+                f.update({k: base[k] for k in rng.sample(list(base), 3)})
+            f['fe'] = rng.choice(fes)
+            f['fill'] = rng.choice([0, 1, 15, 16, 17, 40, 100])
+            f['calls'] = rng.choice([1, 2, 5])
+            self.add_total(f, f['fill'], rng.choice([None, 'exact', 'under', 'over', 'zero', 'odd']))
+            out.append('ctor ' + gen.fields_str(f))
+        # documented maxima together, with enough samples per block for the LPC analysis to run
+        for fe in fes:
+            out.append(f'ctor fe={fe} bps=32 ch=8 rate=1048575 bs=64 lpc=32 po=15 fill=200 calls=3')
+            out.append(f'ctor fe={fe} bps=1 ch=1 rate=1 bs=16 lpc=32 po=15 fill=100')
+        return out
+    def add_total(self, f, fill, tot):
+        ch = int(f['ch']); bps = int(f['bps'])
+        unit = {'byte': max(ch, 0) * ((bps + 7) // 8), 'sample': ch, 'chan': 1}[f['fe']]
+        if tot == 'exact': f['total'] = fill * unit
+        elif tot == 'under': f['total'] = (fill + 3) * unit
+        elif tot == 'over': f['total'] = max(0, fill - 3) * unit
+        elif tot == 'zero': f['total'] = 0
+        elif tot == 'odd': f['total'] = fill * unit + 1
+    def documented(self, cf):
+        return (1 <= int(cf['bps']) <= 32 and 1 <= int(cf['ch']) <= 8 and int(cf['rate']) < 2 ** 20 and int(cf['bs']) >= 16
+                and (cf['lpc'] == 'none' or 1 <= int(cf['lpc']) <= 32) and int(cf['po']) <= 15)
+    def oracle(self, case, impl, profile):
+        op, cf = parse_case(case)
+        h, cls, f = parse_outcome(impl)
+        if h == 'panic':
+            return (f'ctor:{profile}:panic:{cls}', f'constructor / writer panicked ({profile}): {cls}')
+        ch = max(1, int(cf['ch'])); bps = int(cf['bps'])
+        fill = int(cf['fill'])
+        if self.documented(cf):
+            unit = {'byte': ch * ((bps + 7) // 8), 'sample': ch, 'chan': 1}[cf['fe']]
+            if 'total' not in cf:
+                if fill > 0 and h != 'ok':
+                    return (f'ctor:documented-value-refused:{cls}', f'documented parameters were refused or failed: {impl[:120]}')
+                if fill > 0 and (f.get('total') != str(fill) or f.get('roundtrip') != 'true'):
+                    return ('ctor:count-not-recorded', f'undeclared length: wrote {fill} PCM frames, file says {f.get("total")} roundtrip={f.get("roundtrip")}')
+            else:
+                t = int(cf['total'])
+                if t > 0 and t % unit == 0:
+                    d = t // unit
+                    if fill == d and h != 'ok':
+                        return (f'ctor:exact-fill-refused:{cls}', 'writing exactly the declared length failed: ' + impl[:120])
+                    if fill != d and h == 'ok':
+                        return ('ctor:length-contract:' + ('over' if fill > d else 'under'), f'declared {d} PCM frames, wrote {fill}, and finalize reported success')
+        return None
+    def nontrivial(self, case, impl):
+        return True
+    def classify(self, case, impl):
+        op, cf = parse_case(case)
+        return ['outcome=' + (impl.split()[0] + (':' + impl.split()[1] if impl.startswith('err') else '')), 'total=' + ('yes' if 'total' in cf else 'no')]
+
 PROPS = {}
 NOT_YET = {}
 
@@ -1177,4 +1261,20 @@ PROPS['C14'] = dict(
          '(Loc, Truncated); they are exhibited on every byte prefix by the correspondence run. The declared-total variant and the provisional header\'s parseability are covered by the run only.',
     trusted_base=COMMON_TRUST,
     assumptions=['Loc and Truncated (frame locality, prefix determinism of the frame parser)'],
+)
+
+PROPS['C15'] = dict(
+    module='FlacModel.Props.C15',
+    theorems=['Flac.C15.ctor_total', 'Flac.C15.documented_values_accepted', 'Flac.C15.declared_length_contract', 'Flac.C15.undeclared_records_count'],
+    components=[CtorGrid()],
+    rule='the boundary grid of every constructor parameter (depth 0,1,2,...,32,33,64; channels 0,1,2,8,9,255; rate 0,1,44100,2^20-1,2^20,4e9; block size 0,15,16,17,4096,65535; LPC none,0,1,8,31,32,33; '
+         'partition order 0,5,15,16), one at a time and randomly crossed, for the byte, sample and channel writers, each followed by a fill history that under-, exactly- or over-fills a declared '
+         'length (or declares none, zero or a non-divisible one), in the optimised and the overflow-checked profile; the documented maxima together with blocks long enough for the LPC analysis to run',
+    claim='ctor_total: for EVERY argument combination the constructor decision logic returns a writer or an error (zero channels and a 1-bit depth included; the two facts it needs - exact_div refuses a zero '
+          'divisor, STREAMINFO can write depth 1 - are extracted from the source); documented_values_accepted: every documented value is accepted and LPC order 32 satisfies the autocorrelation assertion; '
+          'declared_length_contract (induction over any block sequence): crossing the declared total is refused at the block that crosses, ending short is refused at finalize, ending exactly succeeds; '
+          'undeclared_records_count.',
+    note='That a writer built from documented values then encodes successfully relies on C01 (fallback to VERBATIM); it is exhibited by the grid run with real data. Ranges and limits are regenerated from encode.rs.',
+    trusted_base=COMMON_TRUST,
+    assumptions=[],
 )
